@@ -9,11 +9,15 @@
 (*             them at the start, which made clear()/new(clear=true) dead); *)
 (*   FixWide   the cell covered by a visible wide character is normalised   *)
 (*             in `front` to a zero-width continuation cell before diffing. *)
-(* With both TRUE the model is the current /repo; with either FALSE it is   *)
-(* the pinned code and TLC produces the counterexamples of DESIGN.md 7.     *)
+(*   FixDamage damage under a removed image does not override the Ignored   *)
+(*             mark of an image of this frame (a hidden wide character was  *)
+(*             painted into the new image's area and ate the cell right of  *)
+(*             it).                                                          *)
+(* With all TRUE the model is the current /repo; with any FALSE it is the   *)
+(* pinned code and TLC produces the counterexamples of DESIGN.md 7 / 11.    *)
 EXTENDS RenderSpec, TLC
 
-CONSTANTS FixMarks, FixWide
+CONSTANTS FixMarks, FixWide, FixDamage
 
 DefGrid == [r \in Rows |-> [c \in Cols |-> Def]]
 MarkGrid(m) == [r \in Rows |-> [c \in Cols |-> m]]      \* "E"mpty "I"gnored "D"amaged
@@ -21,6 +25,7 @@ MarkGrid(m) == [r \in Rows |-> [c \in Cols |-> m]]      \* "E"mpty "I"gnored "D"
 Cont == [k |-> "ch", c |-> 99, w |-> 0, f |-> 0, i |-> 0]
 
 FillMarks(marks, S, m) == [r \in Rows |-> [c \in Cols |-> IF <<r, c>> \in S THEN m ELSE marks[r][c]]]
+FillMarksKeep(marks, S, m) == [r \in Rows |-> [c \in Cols |-> IF <<r, c>> \in S /\ (~FixDamage \/ marks[r][c] # "I") THEN m ELSE marks[r][c]]]
 PosOf(idx) == <<((idx - 1) \div W) + 1, ((idx - 1) % W) + 1>>
 
 \* ---- first pass (render.rs "First pass"): acc = [marks, cmds, images, front, shadow]
@@ -42,7 +47,7 @@ Pass1(back, idx, acc) ==
                  IF IsImg(new) THEN [a0 EXCEPT !.marks = FillMarks(@, Foot(new.i, r, c), "I")] ELSE a0)
           ELSE LET a1 == IF IsImg(old)
                          THEN [a0 EXCEPT !.cmds = Append(@, [t |-> "imgerase", i |-> old.i, r |-> r, c |-> c]),
-                                         !.marks = FillMarks(@, Foot(old.i, r, c), "D")]
+                                         !.marks = FillMarksKeep(@, Foot(old.i, r, c), "D")]
                          ELSE a0
                    a2 == IF IsImg(new)
                          THEN [a1 EXCEPT !.images = Append(@, [r |-> r, c |-> c, f |-> new.f, i |-> new.i]),
